@@ -191,7 +191,7 @@ pub enum ParameterId {
     InitialMaxStreamsUni = 0x0009,
     #[param(value_type = VarInt, default = 3u32, bound = 0..=20)]
     AckDelayExponent = 0x000a,
-    #[param(value_type = Duration, default = Duration::from_millis(25))]
+    #[param(value_type = Duration, default = Duration::from_millis(25), bound = 0..=16383)]
     MaxAckDelay = 0x000b,
     #[param(value_type = Boolean)]
     DisableActiveMigration = 0x000c,
